@@ -17,6 +17,42 @@ use crate::enc::encode::BrotliEncoderStateStruct;
 
 pub type PoisonedThreadError = ();
 
+/// Verification hook (compiled only with `--cfg brotli_verif`): a process-wide log of what
+/// `CompressMulti` and `compress_part` decided - ranges, per-job parameters, the ranges stored
+/// into the shared hasher, per-job results, stitching results.  Nothing reads it except a
+/// test harness.
+#[cfg(all(brotli_verif, feature = "std"))]
+pub mod verif_multi {
+    use std::cell::Cell;
+    use std::sync::Mutex;
+    use std::vec::Vec;
+    pub type Event = [u64; 8];
+    static LOG: Mutex<Vec<Event>> = Mutex::new(Vec::new());
+    std::thread_local! { static JOB: Cell<u64> = Cell::new(u64::MAX); }
+    pub fn record(ev: Event) {
+        match LOG.lock() {
+            Ok(mut l) => l.push(ev),
+            Err(p) => p.into_inner().push(ev),
+        }
+    }
+    pub fn take() -> Vec<Event> {
+        match LOG.lock() {
+            Ok(mut l) => core::mem::take(&mut *l),
+            Err(p) => core::mem::take(&mut *p.into_inner()),
+        }
+    }
+    /// job index whose `compress_part` runs on this thread (u64::MAX outside a job)
+    pub fn set_job(index: u64) {
+        JOB.with(|j| j.set(index));
+    }
+    pub fn job() -> u64 {
+        JOB.with(|j| j.get())
+    }
+    pub fn cat_code(r: &crate::concat::BroCatliResult) -> u64 {
+        *r as u8 as u64
+    }
+}
+
 #[cfg(feature = "std")]
 pub type LowLevelThreadError = std::boxed::Box<dyn any::Any + Send + 'static>;
 #[cfg(not(feature = "std"))]
@@ -347,6 +383,23 @@ where
         state.params.magic_number = false; // no reason to pepper this around
     }
     state.params.appendable = true; // make sure we are at least appendable, so that future items can be catted in
+    #[cfg(all(brotli_verif, feature = "std"))]
+    {
+        verif_multi::set_job(thread_index as u64);
+        verif_multi::record([
+            1,
+            thread_index as u64,
+            num_threads as u64,
+            range.start as u64,
+            range.end as u64,
+            mem.len() as u64,
+            state.params.catable as u64
+                | (state.params.appendable as u64) << 1
+                | (state.params.magic_number as u64) << 2
+                | (if let UnionHasher::Uninit = hasher { 0 } else { 1 }) << 3,
+            input_and_params.0.len() as u64,
+        ]);
+    }
     if thread_index != 0 {
         state.set_custom_dictionary_with_optional_precomputed_hasher(
             range.start,
@@ -354,9 +407,24 @@ where
             hasher,
         );
     }
+    #[cfg(all(brotli_verif, feature = "std"))]
+    verif_multi::record([
+        2,
+        thread_index as u64,
+        state.params.catable as u64
+            | (state.params.appendable as u64) << 1
+            | (state.params.magic_number as u64) << 2,
+        state.last_flush_pos_,
+        state.params.quality as u64,
+        state.params.lgwin as u64,
+        0,
+        0,
+    ]);
     let mut out_offset = 0usize;
     let compression_result;
     let mut available_out = mem.len();
+    #[cfg(all(brotli_verif, feature = "std"))]
+    let mut verif_calls = 0u64;
     loop {
         let mut next_in_offset = 0usize;
         let mut available_in = range.end - range.start;
@@ -373,6 +441,20 @@ where
         );
         let new_range = range.start + next_in_offset..range.end;
         range = new_range;
+        #[cfg(all(brotli_verif, feature = "std"))]
+        {
+            verif_calls += 1;
+            verif_multi::record([
+                3,
+                thread_index as u64,
+                verif_calls,
+                result as u64,
+                available_out as u64,
+                out_offset as u64,
+                state.is_finished() as u64,
+                (range.end - range.start) as u64,
+            ]);
+        }
         if result {
             compression_result = Ok(out_offset);
             break;
@@ -382,6 +464,8 @@ where
         }
     }
     BrotliEncoderDestroyInstance(&mut state);
+    #[cfg(all(brotli_verif, feature = "std"))]
+    verif_multi::set_job(u64::MAX);
     match compression_result {
         Ok(size) => CompressionThreadResult::<Alloc> {
             compressed: Ok(CompressedFileChunk {
@@ -460,6 +544,17 @@ where
             let res = spawner_and_input.view(|input_and_params: &(SliceW, BrotliEncoderParams)| {
                 let range = get_range(thread_index - 1, num_threads, input_and_params.0.len());
                 let overlap = hasher.StoreLookahead().wrapping_sub(1);
+                #[cfg(all(brotli_verif, feature = "std"))]
+                verif_multi::record([
+                    5,
+                    thread_index as u64,
+                    overlap as u64,
+                    (range.end - range.start > overlap) as u64,
+                    if range.start > overlap { range.start - overlap } else { 0 } as u64,
+                    range.end.wrapping_sub(overlap) as u64,
+                    0,
+                    0,
+                ]);
                 if range.end - range.start > overlap {
                     hasher.BulkStoreRange(
                         input_and_params.0.slice(),
@@ -556,6 +651,17 @@ where
                     output,
                     &mut out_file_size,
                 );
+                #[cfg(all(brotli_verif, feature = "std"))]
+                verif_multi::record([
+                    6,
+                    index as u64,
+                    1,
+                    verif_multi::cat_code(&cat_result),
+                    out_file_size as u64,
+                    in_offset as u64,
+                    compressed_out.data_size as u64,
+                    0,
+                ]);
                 match cat_result {
                     BroCatliResult::Success | BroCatliResult::NeedsMoreInput => {
                         compression_result = Ok(out_file_size);
@@ -575,6 +681,8 @@ where
                 );
             }
             Err(e) => {
+                #[cfg(all(brotli_verif, feature = "std"))]
+                verif_multi::record([6, index as u64, 0, 255, out_file_size as u64, 0, 0, 0]);
                 compression_result = Err(e);
             }
         }
@@ -584,6 +692,8 @@ where
         match bro_cat_li.finish(output, &mut out_file_size) {
             BroCatliResult::Success => compression_result = Ok(out_file_size),
             err => {
+                #[cfg(all(brotli_verif, feature = "std"))]
+                verif_multi::record([7, verif_multi::cat_code(&err), out_file_size as u64, 0, 0, 0, 0, 0]);
                 compression_result = Err(
                     BrotliEncoderThreadError::ConcatenationFinalizationError(err),
                 )
